@@ -8,7 +8,9 @@ import shutil
 import vcommon as vc
 
 RULE = ("histories of 20-70 Vdata calls (VSattach new/r/w, VSfdefine, VSsetinterlace, VSsetfields, VSwrite, VSseek, VSread, "
-        "VSdetach, Vend+Hclose+reopen, VSinquire, VSelts, VSsizeof, VFfield*, VSsetblocksize/numblocks, VSfpack) over 1-3 "
+        "VSdetach, Vend+Hclose+reopen, VSinquire, VSelts, VSsizeof, VFfield*, VSsetblocksize/numblocks, VSfpack, "
+        "VSsetname/VSsetclass/VSgetname/VSgetclass with lengths aimed at the header-size bookkeeping on vdatas whose header "
+        "is already in the file) over 1-3 "
         "Vdatas of one file: schemas of 1..8 fields over the 30 number types (10 base types x standard/native/little-endian), "
         "orders 1..5 (and large orders for records of up to 65535 bytes), names of 1..10 characters plus 127/128/129/200 "
         "characters and the predefined PX..NZ; record counts 1..40 with overwrites at the start / middle / end, appends, "
@@ -88,6 +90,8 @@ class VD:
         self.wl = False
         self.schema = False
         self.persisted = False
+        self.name = ""
+        self.cls = ""
 
     @property
     def rs(self):
@@ -166,11 +170,35 @@ def gen_history(r, name, kind="std"):
         if mal and r.random() < 0.3:
             L.append(r.choice(["define %d zz 24 0", "define %d zz 24 65536", "define %d zz 7 1", "define %d zz 26 1",
                                "define %d zz 6 9000", "define %d a,b 24 1"]) % v)
+        if r.random() < 0.6:
+            do_setstr(v, d, "name")
+        if r.random() < 0.4:
+            do_setstr(v, d, "class")
         L.append("setfields %d %s" % (v, ",".join(f[0] for f in d.fields)))
         d.schema = True
         d.wl = True
+        if r.random() < 0.3:
+            do_setstr(v, d)
         if r.random() < 0.15:
             L.append("inquire %d" % v)
+
+    def do_setstr(v, d, which=None):
+        """VSsetname / VSsetclass; on a vdata whose header is already in the file the lengths are aimed at the header-size
+        bookkeeping: longer / shorter / equal to the current string of the same kind and of the other kind"""
+        which = which or r.choice(["name", "class", "class"])
+        cur = d.name if which == "name" else d.cls
+        other = d.cls if which == "name" else d.name
+        cands = [0, 1, 3, len(cur), len(cur) + 1, max(0, len(cur) - 1), len(other), len(other) + 1, 10, 18, 30, 63, 64, 65, 70]
+        if len(cur) < len(other):
+            cands += [r.randrange(len(cur) + 1, len(other) + 1)] * 6      # grows, but not beyond the other string
+        n = r.choice(cands)
+        val = "".join(r.choice(ALPH) for _ in range(n))
+        L.append("set%s %d %s" % (which, v, val or "-"))
+        if d.att == "w":
+            if which == "name":
+                d.name = val[:64]
+            else:
+                d.cls = val[:64]
 
     def all_names(d):
         return ",".join(f[0] for f in d.fields)
@@ -247,8 +275,10 @@ def gen_history(r, name, kind="std"):
             L.append("sizeof %d %s" % (v, ",".join(sel)))
         elif k < 0.9:
             L.append("field %d %d" % (v, r.randrange(len(d.fields))))
-        else:
+        elif k < 0.95:
             L.append("nfields %d" % v)
+        else:
+            L.append(r.choice(["getname %d", "getclass %d"]) % v)
 
     def do_pack(v, d):
         names = [f[0] for f in d.fields]
@@ -285,6 +315,16 @@ def gen_history(r, name, kind="std"):
         d.pos = 0
         d.rl = None
         d.wl = False
+        if mode == "w" and kind != "big" and r.random() < 0.55:
+            # the header is already in the file: a longer / shorter name or class, then (usually) more records
+            do_setstr(v, d)
+            if r.random() < 0.3:
+                do_setstr(v, d)
+            if d.full or len(d.fields) == 1:
+                if r.random() < 0.7:
+                    do_write(v, d, pos=d.nrec)
+        elif mode == "r" and mal and r.random() < 0.3:
+            do_setstr(v, d)         # refused on a read attachment
 
     if kind == "big":
         # b0: one field, three passes through the transfer buffer; b1: two fields, three passes; others: two passes
@@ -410,6 +450,8 @@ def gen_history(r, name, kind="std"):
             il = r.choice([0, 1])
             L.append("setil %d %d" % (v, il))
             d.full = il == 0
+        elif k < 0.845 and d.att == "w":
+            do_setstr(v, d)
         elif k < 0.87:
             if r.random() < 0.5:
                 L.append("blocksize %d %d" % (v, max(d.rs * 100 // 6000 + 1, r.choice([1, 2, 4, 16, 50, 4096]))))
@@ -431,6 +473,8 @@ def gen_history(r, name, kind="std"):
             continue
         attach(v, d, "r")
         L.append("inquire %d" % v)
+        L.append("getname %d" % v)
+        L.append("getclass %d" % v)
         for j in range(len(d.fields)):
             if r.random() < 0.4:
                 L.append("field %d %d" % (v, j))
@@ -689,14 +733,14 @@ def run(ctx):
     for fn in sorted(os.listdir(cdir)) if os.path.isdir(cdir) else []:
         corpus += split_histories([l for l in open(os.path.join(cdir, fn)).read().splitlines() if l.strip() and not l.startswith("#")])
     quick = ctx.tier == "quick"
-    nh = 170 if quick else 4000
+    nh = 170 if quick else 1800
     hists = list(corpus)
     hists += [gen_history(r, "g%d" % i, "std") for i in range(nh)]
     hists += [gen_history(r, "n%d" % i, "noil") for i in range(nh // 6)]
     hists += [gen_history(r, "l%d" % i, "lb") for i in range(nh // 3)]
     hists += [gen_history(r, "m%d" % i, "mal") for i in range(nh // 4)]
     hists += [gen_multi(r, "a%d" % i) for i in range(nh // 3)]
-    hists += [gen_history(r, "b%d" % i, "big") for i in range(4 if quick else 30)]
+    hists += [gen_history(r, "b%d" % i, "big") for i in range(4 if quick else 12)]
     rc, R, S, flat, mcalls = run_histories(ctx, hists, "main", trace=True)
     opmix, fails_r, nviol, known_hists = {}, 0, 0, 0
     reads_full, reads_none, writes_full, writes_none, subset_reads, big_transfers, lb_hist = 0, 0, 0, 0, 0, 0, 0
